@@ -269,3 +269,45 @@ def main(n: i64): i64 {
   0
 }
 """)
+
+# ---- a statement lifted out of main itself (critical pair at a multi-constructor type in main): the entry point must stay first
+w("lift_in_main_data", """data List[A] { Nil, Cons(x: A, xs: List[A]) }
+def mk(n: i64): List[i64] { if n == 0 { Nil } else { Cons(n, mk(n - 1)) } }
+def sum(l: List[i64]): i64 { l.case[i64] { Nil => 0, Cons(x, xs) => x + sum(xs) } }
+def main(a: i64, b: i64): i64 {
+  println_i64(a);
+  let l: List[i64] = mk(a);
+  println_i64(sum(l));
+  let m: List[i64] = mk(b);
+  println_i64(sum(m) + sum(l));
+  a + b
+}
+""")
+w("lift_in_main_codata", """codata Str { hd : i64, tl : Str }
+def from(n: i64): Str { new { hd => n, tl => from(n + 1) } }
+def main(n: i64): i64 {
+  println_i64(n);
+  let s: Str = label k { from(n) };
+  println_i64(s.tl.tl.hd);
+  n
+}
+""")
+# ---- type instances whose printed names are around and beyond 100 columns (name mangling must not depend on layout)
+for width_name in ("Aaaaaaaaaaaaaaaaaaaaaaaaaaaaaaaaaaaaaaaaaaaaaa", "Bbbbbbbbbbbbbbbbbbbbbbbbbbbbbbbbbbbbbbbbbbbbbbbbbbbbbbbbbbbbbbbbbbbbbbbbbbbbbbbbbbbbbbbbbbbbbbb"):
+    T = width_name
+    w(f"widetype_{len(T)}", f"""data {T}[A, B] {{ L{T[:3]}(x: A), R{T[:3]}(y: B) }}
+data Pair[A, B] {{ MkP(fst: A, snd: B) }}
+codata Fun[A, B] {{ apply(x: A) : B }}
+def get(e: {T}[Pair[i64, i64], Pair[Pair[i64, i64], i64]]): i64 {{
+  e.case[Pair[i64, i64], Pair[Pair[i64, i64], i64]] {{ L{T[:3]}(p) => p.case[i64, i64] {{ MkP(a, b) => a + b }},
+                                                      R{T[:3]}(q) => q.case[Pair[i64, i64], i64] {{ MkP(c, d) => d }} }}
+}}
+def wrap(n: i64): Fun[{T}[i64, i64], {T}[Pair[i64, i64], Pair[Pair[i64, i64], i64]]] {{
+  new {{ apply(e) => e.case[i64, i64] {{ L{T[:3]}(x) => L{T[:3]}(MkP(x, n)), R{T[:3]}(y) => R{T[:3]}(MkP(MkP(y, y), n)) }} }}
+}}
+def main(n: i64): i64 {{
+  println_i64(get(wrap(n).apply[{T}[i64, i64], {T}[Pair[i64, i64], Pair[Pair[i64, i64], i64]]](L{T[:3]}(5))));
+  println_i64(get(wrap(n).apply[{T}[i64, i64], {T}[Pair[i64, i64], Pair[Pair[i64, i64], i64]]](R{T[:3]}(6))));
+  0
+}}
+""")
